@@ -109,6 +109,22 @@ def bounded_reread(want, cols):
     return ""
 
 
+def reordered_columns(want):
+    """read_parquet_dask(columns=<another geometry column first>, geometry=g): the frame and each of its partitions have g active"""
+    from spatialpandas.io import read_parquet_dask
+    path, g = LAST_PARQUET
+    geos = [c for c in want["cols"] if c != "v"]
+    if len(geos) < 2:
+        return ""
+    for order in (list(reversed(want["cols"])), [c for c in want["cols"] if c != want["active"]] + [want["active"]]):
+        fr = read_parquet_dask(path, columns=order, geometry=want["active"])
+        st = project(fr)
+        if st["kind"] != "dask" or st["active"] != want["active"] or st["parts"] != [want["active"]]:
+            return (f"read_parquet_dask(columns={order}, geometry={want['active']!r}): frame reports {st.get('active')!r}, its partitions compute with "
+                    f"{st.get('parts')}")
+    return ""
+
+
 def joint_compute(want, cols):
     """two frames opened on the same dataset with different geometry= and evaluated in ONE graph: each computes with its own column"""
     import dask
@@ -272,7 +288,7 @@ def run(tier: str, seed: int) -> int:
                             continue
                         ok, why = conforms(got, want, obj, cols)
                         if ok and h["op"] == "parquet_roundtrip" and want["kind"] == "dask" and want["active"] not in ("UNSPEC", "NONE"):
-                            why = bounded_reread(want, cols) or joint_compute(want, cols)
+                            why = bounded_reread(want, cols) or joint_compute(want, cols) or reordered_columns(want)
                             ok = not why
                         if not ok:
                             chk.violation(f"{colsname}|{h['op']}|{why[:60]}", " ; ".join(desc) + f"\n  {why}\n  implementation state {got}; model state "
